@@ -160,6 +160,8 @@ func (c chain) family() string {
 		return "facts-destroy"
 	case len(c.Muts) == 1:
 		return "facts-update"
+	case isMirrorChain(c):
+		return "mirror"
 	case c.Entry != "":
 		return "verify-entry"
 	case countStep(c.Steps, "S") > 0:
